@@ -46,12 +46,20 @@ Record evolves (s s' : sock) : Prop := mkEv {
   ev_type : s_type s' = s_type s;
   ev_bname : s_bname s' = s_bname s;
   ev_shut : s_state s = StShutdown -> s_state s' = StShutdown;
-  ev_nolisten : nolisten (s_state s) -> nolisten (s_state s') }.
+  ev_nolisten : nolisten (s_state s) -> nolisten (s_state s');
+  ev_sq : s_type s = TLdl -> forall p, In p (s_sendq s') -> In p (s_sendq s) \/ ui_src (s_addr s') p;
+  ev_rq : s_type s = TLdl -> forall p, In p (s_recvq s') -> In p (s_recvq s) \/ ui_dst (s_addr s') p }.
 
 Lemma evolves_refl s : evolves s s.
 Proof. constructor; auto. Qed.
 Lemma evolves_trans s1 s2 s3 : evolves s1 s2 -> evolves s2 s3 -> evolves s1 s3.
-Proof. intros [] []. constructor; try congruence; auto. Qed.
+Proof.
+  intros [A1 T1 B1 S1 N1 Q1 R1] [A2 T2 B2 S2 N2 Q2 R2]. constructor; try congruence; auto.
+  - intros T p H. destruct (Q2 (eq_trans T1 T) p H) as [H2|H2]; auto.
+    destruct (Q1 T p H2) as [H1|H1]; auto. right. rewrite A2. auto.
+  - intros T p H. destruct (R2 (eq_trans T1 T) p H) as [H2|H2]; auto.
+    destruct (R1 T p H2) as [H1|H1]; auto. right. rewrite A2. auto.
+Qed.
 
 Lemma get_put c i s' s j : get_sock c i = Some s ->
   get_sock (put_sock c i s') j = if Nat.eqb i j then Some s' else get_sock c j.
@@ -61,9 +69,9 @@ Proof. intro H. destruct (Nat.eqb i j) eqn:E.
 
 Lemma wf_put_evolve c i s s' : wf c -> get_sock c i = Some s -> evolves s s' -> wf (put_sock c i s').
 Proof.
-  intros W G [Ea Et Eb Es En].
+  intros W G [Ea Et Eb Es En Eq Er].
   assert (GP := get_put c i s' s).
-  destruct W as [Wlen W0 W1 Wsd Wne Wla Wnd Wol War Whg Wk Wsdp Wval Winj Wbs Wsb Wun].
+  destruct W as [Wlen W0 W1 Wsd Wne Wla Wnd Wol War Whg Wk Wsdp Wval Winj Wbs Wsb Wun Wsq Wrq].
   constructor; auto.
   - intros a j L. destruct (Wla a j L) as (sj & Gj & Aj). rewrite GP by auto.
     destruct (Nat.eqb i j) eqn:E; [|eauto]. apply Nat.eqb_eq in E. subst j.
@@ -86,6 +94,10 @@ Proof.
     destruct (Wsb a i s n Ha Ln L G) as [B|[B N]]; [left; congruence | right; split; [congruence | auto]].
   - intros j sj Gj Aj. rewrite GP in Gj by auto. destruct (Nat.eqb i j) eqn:E; [|eapply Wun; eauto].
     inversion Gj; subst sj. rewrite Eb. eapply Wun; eauto. congruence.
+  - intros j sj p Gj Tj Hp. rewrite GP in Gj by auto. destruct (Nat.eqb i j) eqn:E; [|eapply Wsq; eauto].
+    inversion Gj; subst sj. rewrite Et in Tj. destruct (Eq Tj p Hp) as [H|H]; auto. rewrite Ea. eapply Wsq; eauto.
+  - intros j sj p Gj Tj Hp. rewrite GP in Gj by auto. destruct (Nat.eqb i j) eqn:E; [|eapply Wrq; eauto].
+    inversion Gj; subst sj. rewrite Et in Tj. destruct (Er Tj p Hp) as [H|H]; auto. rewrite Ea. eapply Wrq; eauto.
 Qed.
 
 (* ---------------------------------------------------------------- a new, unbound socket *)
@@ -108,12 +120,13 @@ Qed.
 Lemma get_sock_lt c j s : get_sock c j = Some s -> (j < length (c_socks c))%nat.
 Proof. unfold get_sock. intro H. apply nth_error_Some. congruence. Qed.
 
-Lemma wf_new_sock c x : wf c -> s_addr x = None -> s_bname x = None -> wf (set_socks c (c_socks c ++ [x])).
+Lemma wf_new_sock c x : wf c -> s_addr x = None -> s_bname x = None -> s_sendq x = [] -> s_recvq x = [] ->
+  wf (set_socks c (c_socks c ++ [x])).
 Proof.
-  intros W Ax Bx. set (c' := set_socks c (c_socks c ++ [x])).
+  intros W Ax Bx Qx Rx. set (c' := set_socks c (c_socks c ++ [x])).
   assert (GA : forall j, get_sock c' j = if Nat.eqb j (length (c_socks c)) then Some x else get_sock c j)
     by (intro; apply get_sock_app).
-  destruct W as [Wlen W0 W1 Wsd Wne Wla Wnd Wol War Whg Wk Wsdp Wval Winj Wbs Wsb Wun].
+  destruct W as [Wlen W0 W1 Wsd Wne Wla Wnd Wol War Whg Wk Wsdp Wval Winj Wbs Wsb Wun Wsq Wrq].
   assert (OLD : forall a j, listed c a j -> get_sock c' j = get_sock c j).
   { intros a j L. destruct (Wla a j L) as (sj & Gj & _). apply get_sock_lt in Gj. rewrite GA.
     replace (Nat.eqb j (length (c_socks c))) with false; auto. symmetry. apply Nat.eqb_neq. lia. }
@@ -129,6 +142,10 @@ Proof.
   - intros a j sj n Ha Ln L Gj. change (listed c a j) in L. rewrite (OLD a j L) in Gj. eapply Wsb; eauto.
   - intros j sj Gj Aj. rewrite GA in Gj. destruct (Nat.eqb j (length (c_socks c))); [|eapply Wun; eauto].
     inversion Gj; subst. auto.
+  - intros j sj p Gj Tj Hp. rewrite GA in Gj. destruct (Nat.eqb j (length (c_socks c))); [|eapply Wsq; eauto].
+    inversion Gj; subst. rewrite Qx in Hp. destruct Hp.
+  - intros j sj p Gj Tj Hp. rewrite GA in Gj. destruct (Nat.eqb j (length (c_socks c))); [|eapply Wrq; eauto].
+    inversion Gj; subst. rewrite Rx in Hp. destruct Hp.
 Qed.
 
 (* ---------------------------------------------------------------- send_list of a SAP *)
@@ -146,7 +163,7 @@ Proof.
   { intro b. unfold is_free. destruct (Z.eq_dec a b).
     - subst b. rewrite sap_get_set_same by (auto; apply W). rewrite G. reflexivity.
     - rewrite sap_get_set_other by auto. reflexivity. }
-  destruct W as [Wlen W0 W1 Wsd Wne Wla Wnd Wol War Whg Wk Wsdp Wval Winj Wbs Wsb Wun].
+  destruct W as [Wlen W0 W1 Wsd Wne Wla Wnd Wol War Whg Wk Wsdp Wval Winj Wbs Wsb Wun Wsq Wrq].
   constructor; unfold listed in *; try setoid_rewrite SO; try setoid_rewrite get_sock_sap_set;
     try setoid_rewrite FR; try rewrite sap_set_snl; auto.
   - rewrite sap_set_len. auto.
@@ -225,7 +242,7 @@ Proof.
       intro; subst x. congruence. }
   assert (LKold : forall m x, lookup (c_snl c) m = Some x -> lookup snl' m = Some x).
   { intros m x L. unfold snl'. destruct on; auto. apply lookup_app_some; auto. }
-  destruct W as [Wlen W0 W1 Wsd Wne Wla Wnd Wol War Whg Wk Wsdp Wval Winj Wbs Wsb Wun].
+  destruct W as [Wlen W0 W1 Wsd Wne Wla Wnd Wol War Whg Wk Wsdp Wval Winj Wbs Wsb Wun Wsq Wrq].
   constructor.
   - unfold c', place_named, place. cbn [c_sap set_snl]. rewrite sap_set_len. rewrite put_sock_sap. auto.
   - rewrite SG. replace (a =? 0) with false by lia. auto.
@@ -276,6 +293,10 @@ Proof.
       destruct (LK m b Lm) as [[[L0 N]|[E L0]]|(O & E & _)]; [eapply Wsb; eauto | lia | congruence].
   - intros j sj Gj Aj. rewrite GS in Gj. destruct (Nat.eqb i j); [|eapply Wun; eauto].
     inversion Gj; subst sj. cbn in Aj. discriminate.
+  - intros j sj p Gj Tj Hp. rewrite GS in Gj. destruct (Nat.eqb i j) eqn:E; [|eapply Wsq; eauto].
+    inversion Gj; subst sj. cbn in Tj, Hp. destruct (Wsq i s p G Tj Hp) as (d & data & a0 & _ & A0). congruence.
+  - intros j sj p Gj Tj Hp. rewrite GS in Gj. destruct (Nat.eqb i j) eqn:E; [|eapply Wrq; eauto].
+    inversion Gj; subst sj. cbn in Tj, Hp. destruct (Wrq i s p G Tj Hp) as (d & sa & data & _ & A0). congruence.
 Qed.
 
 Lemma place_named_none c i s a : s_bname s = None -> place_named c i s a None = place c i s a.
@@ -328,7 +349,7 @@ Proof.
       - intros [H N]. inversion H; subst. lia.
       - intro H; inversion H; subst. split; auto. lia.
       - tauto. }
-    destruct W as [Wlen W0 W1 Wsd Wne Wla Wnd Wol War Whg Wk Wsdp Wval Winj Wbs Wsb Wun].
+    destruct W as [Wlen W0 W1 Wsd Wne Wla Wnd Wol War Whg Wk Wsdp Wval Winj Wbs Wsb Wun Wsq Wrq].
     constructor.
     + unfold c'. cbn [c_sap set_snl]. rewrite sap_set_len. auto.
     + rewrite SG'. replace (a =? 0) with false by lia. auto.
@@ -350,6 +371,8 @@ Proof.
     + intros b j sj n L Gj Bj. apply LI in L. rewrite GS in Gj. apply LK. split; [eapply Wbs; eauto; tauto | tauto].
     + intros b j sj n Hb Ln L Gj. apply LK in Ln. apply LI in L. rewrite GS in Gj. eapply Wsb; eauto; tauto.
     + intros j sj Gj. rewrite GS in Gj. eauto.
+    + intros j sj p Gj. rewrite GS in Gj. eauto.
+    + intros j sj p Gj. rewrite GS in Gj. eauto.
   - (* other sockets remain *)
     rewrite <- RM. set (l' := remove_id l i).
     assert (NE : l' <> []) by (unfold l'; rewrite RM; discriminate).
@@ -364,7 +387,7 @@ Proof.
       replace b with a by lia. rewrite SG. cbn. apply remove_id_in. }
     assert (FR : forall b, is_free c' b = is_free c b).
     { intro b. unfold is_free. rewrite SG'. destruct (a =? b) eqn:E; auto. replace b with a by lia. rewrite SG. reflexivity. }
-    destruct W as [Wlen W0 W1 Wsd Wne Wla Wnd Wol War Whg Wk Wsdp Wval Winj Wbs Wsb Wun].
+    destruct W as [Wlen W0 W1 Wsd Wne Wla Wnd Wol War Whg Wk Wsdp Wval Winj Wbs Wsb Wun Wsq Wrq].
     constructor; try (unfold c'; rewrite sap_set_snl); auto.
     + unfold c'. rewrite sap_set_len. auto.
     + rewrite SG'. replace (a =? 0) with false by lia. auto.
@@ -384,6 +407,8 @@ Proof.
     + intros b j sj n L Gj Bj. apply LI in L. rewrite GS in Gj. eapply Wbs; eauto.
     + intros b j sj n Hb Ln L Gj. apply LI in L. rewrite GS in Gj. eapply Wsb; eauto.
     + intros j sj Gj. rewrite GS in Gj. eauto.
+    + intros j sj p Gj. rewrite GS in Gj. eauto.
+    + intros j sj p Gj. rewrite GS in Gj. eauto.
 Qed.
 
 (* ---------------------------------------------------------------- accept: a new socket joins an existing SAP *)
@@ -429,7 +454,7 @@ Proof.
   split; [|split; [apply LI; auto | split; [rewrite GS, Nat.eqb_refl; auto | split; [|split; auto]]]].
   2:{ intros k Hk. rewrite GS. replace (Nat.eqb k j) with false; auto. symmetry. apply Nat.eqb_neq. auto. }
   2:{ intros b Hb. rewrite SG'. replace (a =? b) with false by lia. auto. }
-  destruct W as [Wlen W0 W1 Wsd Wne Wla Wnd Wol War Whg Wk Wsdp Wval Winj Wbs Wsb Wun].
+  destruct W as [Wlen W0 W1 Wsd Wne Wla Wnd Wol War Whg Wk Wsdp Wval Winj Wbs Wsb Wun Wsq Wrq].
   constructor; try rewrite SN; auto.
   - unfold c3. rewrite sap_set_len. auto.
   - rewrite SG'. replace (a =? 0) with false by lia. auto.
@@ -466,4 +491,6 @@ Proof.
     + rewrite Nat.eqb_refl in Gk. inversion Gk; subst. right. auto.
     + replace (Nat.eqb k j) with false in Gk by (symmetry; apply Nat.eqb_neq; eapply LT; eauto). eapply Wsb; eauto.
   - intros k sk Gk Ak. rewrite GS in Gk. destruct (Nat.eqb k j); [|eauto]. inversion Gk; subst. congruence.
+  - intros k sk p Gk Tk Hp. rewrite GS in Gk. destruct (Nat.eqb k j); [|eapply Wsq; eauto]. inversion Gk; subst. congruence.
+  - intros k sk p Gk Tk Hp. rewrite GS in Gk. destruct (Nat.eqb k j); [|eapply Wrq; eauto]. inversion Gk; subst. congruence.
 Qed.
